@@ -53,6 +53,7 @@ func main() {
 	deep := flag.Bool("deep", false, "deeper bounds (thorough tier): long histories")
 	enum := flag.Bool("enum", false, "systematic mode: the run index selects (layout, op, op) from the enumeration instead of seeding a generator")
 	enumSize := flag.Bool("enum-size", false, "print the size of the enumeration")
+	genOnly := flag.Bool("genonly", false, "print the histories of the index range without executing them")
 	stopOnFail := flag.Bool("stop", false, "stop at the first failing history")
 	flag.Parse()
 
@@ -83,6 +84,10 @@ func main() {
 		if *enum {
 			h = enumHistory(i)
 			seed = i
+		}
+		if *genOnly {
+			emit(line{Ev: "gen", I: i, Seed: seed, Profile: p, Hist: h})
+			continue
 		}
 		emit(line{Ev: "start", I: i, Seed: seed, Profile: p})
 		r := runHistory(h)
